@@ -47,6 +47,46 @@ fn items_json(v: &[Item]) -> J {
     J::Arr(v.iter().map(|i| match i { Item::Ok(_) => J::s("Ok"), Item::Err(c, _) => J::s(c.clone()) }).collect())
 }
 
+/// A valid .dbf with n rows (row i holds i), for the complete reader.
+fn dbf_with_rows(n: usize) -> Vec<u8> {
+    let dest = crate::iomon::Dest::new();
+    {
+        let mut w = crate::e_c10::table_builder().build_with_dest(dest.clone());
+        for i in 0..n {
+            w.write_record(&crate::e_c08::good_row(i)).expect("harness: dbf row");
+        }
+    }
+    dest.data()
+}
+
+/// The routes that answer with ONE result for the whole file. On a cut file (l < full) they
+/// must fail with an I/O error; on the complete file they return every shape.
+fn whole_file_routes(cut: &[u8], shx: Option<&[u8]>, dbf: &[u8]) -> Vec<(&'static str, Result<Vec<D>, (String, bool)>)> {
+    let e = |x: Error| (err_class(&x), matches!(x, Error::IoError(_)));
+    let c = |b: &[u8]| Cursor::new(b.to_vec());
+    let mk = || match shx {
+        Some(x) => ShapeReader::with_shx(c(cut), c(x)),
+        None => ShapeReader::new(c(cut)),
+    };
+    let mut out: Vec<(&'static str, Result<Vec<D>, (String, bool)>)> = vec![];
+    out.push(("ShapeReader::read", mk().and_then(|r| r.read()).map(|v| v.iter().map(|s| s.d()).collect()).map_err(e)));
+    out.push((
+        "Reader::read",
+        mk().and_then(|r| Ok(Reader::new(r, shapefile::dbase::Reader::new(c(dbf))?)))
+            .and_then(|mut r| r.read())
+            .map(|v| v.iter().map(|(s, _)| s.d()).collect())
+            .map_err(e),
+    ));
+    out.push((
+        "Reader::iter_shapes_and_records.collect",
+        mk().and_then(|r| Ok(Reader::new(r, shapefile::dbase::Reader::new(c(dbf))?)))
+            .and_then(|mut r| r.iter_shapes_and_records().collect::<Result<Vec<_>, Error>>())
+            .map(|v| v.iter().map(|(s, _)| s.d()).collect())
+            .map_err(e),
+    ));
+    out
+}
+
 struct File {
     t: i32,
     shp: Vec<u8>,
@@ -54,6 +94,8 @@ struct File {
     want: Vec<D>,
     /// byte offsets where each record ends (record i is wholly inside L iff ends[i] <= L)
     ends: Vec<usize>,
+    /// a table of n rows for the complete reader
+    dbf: Vec<u8>,
 }
 
 fn truncations(f: &File, fi: usize, ctx: &Ctx, rep: &mut Report) {
@@ -158,6 +200,71 @@ fn truncations(f: &File, fi: usize, ctx: &Ctx, rep: &mut Report) {
                     }
                 }
             }
+            // ---- the same cut through the routes that answer once for the whole file, and through
+            //      random access (every 3rd length, the boundaries always)
+            if route == "cursor" && l >= 100 && (l % 3 == fi % 3 || near_end) && !cfg!(miri) {
+                let cutb = f.shp[..l].to_vec();
+                let whole_routes = panicmon::catch(|| whole_file_routes(&cutb, if with_shx { Some(&f.shx) } else { None }, &f.dbf));
+                match whole_routes {
+                    Err(p) => rep.violation(&sig("panic"), &case, detail(&p.class(), J::Null)),
+                    Ok(rs) => {
+                        for (name, r) in rs {
+                            rep.count("cuts_read_through_whole_file_routes", 1);
+                            let bad: Option<String> = match r {
+                                Ok(v) if l < f.shp.len() => Some(format!("cut-record-not-reported: {} returned Ok with {} shapes", name, v.len())),
+                                Ok(v) => {
+                                    if v.len() != n || v.iter().zip(&f.want).any(|(g, w)| first_diff(g, w).is_some()) {
+                                        Some(format!("{} on the complete file differs from what was written", name))
+                                    } else {
+                                        None
+                                    }
+                                }
+                                Err((class, is_io)) if l < f.shp.len() => {
+                                    if is_io {
+                                        None
+                                    } else {
+                                        Some(format!("cut-record-not-io-error: {} failed with {}", name, class))
+                                    }
+                                }
+                                Err((class, _)) => Some(format!("error-on-complete-file: {} failed with {}", name, class)),
+                            };
+                            if let Some(b) = bad {
+                                rep.violation(&sig(&format!("{}/{}", name, b.split(':').next().unwrap_or("bad").split(' ').next().unwrap_or("bad"))), &case, detail(&b, J::Null));
+                            }
+                        }
+                    }
+                }
+                if with_shx {
+                    // random access with the intact index: a record wholly inside comes back as written,
+                    // any other index below n is an I/O error - never None, never another shape
+                    let nth = panicmon::catch(|| {
+                        ShapeReader::with_shx(Cursor::new(cutb.clone()), Cursor::new(f.shx.clone())).map(|mut rd| (0..n).map(|i| rd.read_nth_shape(i).map(item)).collect::<Vec<_>>()).map_err(|e| err_class(&e))
+                    });
+                    match nth {
+                        Err(p) => rep.violation(&sig("nth/panic"), &case, detail(&p.class(), J::Null)),
+                        Ok(Err(class)) => rep.violation(&sig("open-failed-with-complete-header"), &case, detail(&class, J::Null)),
+                        Ok(Ok(v)) => {
+                            for (i, x) in v.iter().enumerate() {
+                                rep.count("random_accesses_on_cut_files", 1);
+                                let inside = f.ends[i] <= l;
+                                let bad = match x {
+                                    None => Some("nth/returned-None-below-the-count"),
+                                    Some(Item::Ok(g)) if inside && first_diff(g, &f.want[i]).is_none() => None,
+                                    Some(Item::Ok(_)) if inside => Some("nth/wrong-shape"),
+                                    Some(Item::Ok(_)) => Some("nth/returned-cut-record"),
+                                    Some(Item::Err(..)) if inside => Some("nth/lost-whole-record"),
+                                    Some(Item::Err(_, true)) => None,
+                                    Some(Item::Err(_, false)) => Some("nth/cut-record-not-io-error"),
+                                };
+                                if let Some(b) = bad {
+                                    rep.violation(&sig(b), &case, detail(&format!("read_nth_shape({})", i), J::Null));
+                                    break;
+                                }
+                            }
+                        }
+                    }
+                }
+            }
             }
         }
     }
@@ -241,6 +348,19 @@ fn traversal(shp: Src, shx: Option<Src>, n: usize, order: u8) -> Result<Vec<(usi
                 return calls;
             }
         };
+        if order == 2 {
+            // the public seek is a call under test of its own, then the iteration it positions
+            let k = n / 2;
+            epoch += 1;
+            set(epoch);
+            match rd.seek(k) {
+                Ok(()) => calls.push((epoch, format!("seek({})", k), false, false, None)),
+                Err(e) => {
+                    calls.push((epoch, format!("seek({})", k), true, matches!(e, Error::IoError(_)), None));
+                    return calls;
+                }
+            }
+        }
         let passes = if order == 1 && shx.is_some() { 2 } else { 1 };
         for pass in 0..passes {
             if order == 1 {
@@ -313,11 +433,22 @@ fn faults_and_chunks(f: &File, fi: usize, ctx: &Ctx, rep: &mut Report) {
     let n = f.want.len();
     let tname = type_name(f.t);
     for with_shx in [false, true] {
+        let mut layouts: Vec<(&str, Vec<u8>, Vec<u8>)> = vec![("", f.shp.clone(), f.shx.clone())];
+        if with_shx && n <= 8 && !cfg!(miri) {
+            // the same records with 2..8 filler bytes in front of each, reachable through the index
+            // only: there the iteration itself has to seek, and those seeks can fail too
+            let (pshp, pshx) = padded_variant(f);
+            layouts.push((":padded", pshp, pshx));
+        }
+        for (layout, lshp, lshx) in layouts.iter() {
+        if !layout.is_empty() {
+            rep.count("fault_enumerations_on_padded_layouts", 1);
+        }
         // undisturbed traversal: number of operations on each source
-        let shp = Src::new(f.shp.clone());
-        let shx = if with_shx { Some(Src::new(f.shx.clone())) } else { None };
-        for order in [0u8, 1] {
-        if order == 1 && !with_shx {
+        let shp = Src::new(lshp.clone());
+        let shx = if with_shx { Some(Src::new(lshx.clone())) } else { None };
+        for order in [0u8, 1, 2] {
+        if order >= 1 && !with_shx {
             continue;
         }
         let base = match traversal(shp.clone(), shx.clone(), n, order) {
@@ -333,14 +464,14 @@ fn faults_and_chunks(f: &File, fi: usize, ctx: &Ctx, rep: &mut Report) {
         for (target, n_ops) in [("shp", n_shp), ("shx", n_shx)] {
             for k in 0..n_ops {
                 for persistent in [false, true] {
-                    let case = format!("c13:f{}:fault:{}{}:{}:k{}:{}", fi, if with_shx { "idx" } else { "noidx" }, if order == 1 { ":nth-first" } else { "" }, target, k, if persistent { "p" } else { "o" });
+                    let case = format!("c13:f{}:fault{}:{}{}:{}:k{}:{}", fi, layout, if with_shx { "idx" } else { "noidx" }, [ "", ":nth-first", ":seek-first"][order as usize], target, k, if persistent { "p" } else { "o" });
                     if !ctx.want(&case) {
                         continue;
                     }
                     let (s1, s2) = if target == "shp" {
-                        (Src::faulty(f.shp.clone(), k, persistent), if with_shx { Some(Src::new(f.shx.clone())) } else { None })
+                        (Src::faulty(lshp.clone(), k, persistent), if with_shx { Some(Src::new(lshx.clone())) } else { None })
                     } else {
-                        (Src::new(f.shp.clone()), Some(Src::faulty(f.shx.clone(), k, persistent)))
+                        (Src::new(lshp.clone()), Some(Src::faulty(lshx.clone(), k, persistent)))
                     };
                     let faulty = if target == "shp" { s1.clone() } else { s2.clone().unwrap() };
                     rep.eval();
@@ -369,7 +500,7 @@ fn faults_and_chunks(f: &File, fi: usize, ctx: &Ctx, rep: &mut Report) {
                                 }
                             }
                             // everything returned Ok before/after must be genuine
-                            let mut pos = 0usize;
+                            let mut pos = if order == 2 { n / 2 } else { 0usize };
                             for c in &calls {
                                 if let Some(g) = &c.4 {
                                     let idx = if c.1.starts_with("nth(") { c.1[4..c.1.len() - 1].parse::<usize>().unwrap_or(usize::MAX) } else { let p = pos; pos += 1; p };
@@ -391,6 +522,7 @@ fn faults_and_chunks(f: &File, fi: usize, ctx: &Ctx, rep: &mut Report) {
                     }
                 }
             }
+        }
         }
         }
         // ---- short reads
@@ -518,7 +650,8 @@ pub fn run(ctx: &Ctx) -> Report {
         if !cfg!(miri) {
             std::fs::create_dir_all(format!("{}/files", ctx.out)).expect("harness: mkdir");
         }
-        let f = File { t, shp, shx, want, ends };
+        let dbf = dbf_with_rows(want.len());
+        let f = File { t, shp, shx, want, ends, dbf };
         truncations(&f, idx, ctx, rep);
         faults_and_chunks(&f, idx, ctx, rep);
         rep.sample(|| J::obj(vec![("file", J::UInt(idx as u64)), ("type", J::s(type_name(t))), ("records", J::UInt(f.want.len() as u64)), ("shp_bytes", J::UInt(f.shp.len() as u64)), ("record_ends", J::Arr(f.ends.iter().map(|e| J::UInt(*e as u64)).collect()))]));
